@@ -181,28 +181,40 @@ class Check:
         self.notes = []
 
     # ---------------------------------------------------------------- building
+    def parts(self):
+        """a property may exercise several drivers (e.g. the C API and the C++ wrappers): the module itself
+        plus the objects listed in its `extra_parts` (same attributes: area driver cxx corpus scripts nontrivial)"""
+        return [self.prop] + list(getattr(self.prop, "extra_parts", []))
+
     def prepare(self):
         p = self.prop
-        self.objdir, self.binfo = build.build_objects(need_cxx=getattr(p, "cxx", False))
-        self.drv = build.build_driver(p.driver, self.objdir, cxx=getattr(p, "cxx", False), extra=getattr(p, "link_extra", ()))
+        need_cxx = any(getattr(q, "cxx", False) for q in self.parts())
+        self.objdir, self.binfo = build.build_objects(need_cxx=need_cxx)
+        self.drvs = {}
+        for q in self.parts():
+            self.drvs[q.driver] = build.build_driver(q.driver, self.objdir, cxx=getattr(q, "cxx", False),
+                                                     extra=getattr(q, "link_extra", ()))
+        self.drv = self.drvs[p.driver]
         if hasattr(p, "generate"):
             p.generate(self)
-        ok, out = build.lake_build(["MptModel.Props." + p.id, "mm_" + p.area])
+        exes = sorted({"mm_" + q.area for q in self.parts()})
+        ok, out = build.lake_build(["MptModel.Props." + p.id] + exes)
         self.lake_ok, self.lake_out = ok, out
         if not ok:
             # is the model executable still available?  try the driver alone
-            ok2, _ = build.lake_build(["mm_" + p.area])
+            ok2, _ = build.lake_build(exes)
             self.model_ok = ok2
         else:
             self.model_ok = True
 
-    def run_pair(self, scripts):
-        c = run.run_batch([self.drv], scripts, per_process=getattr(self.prop, "per_process", None))
-        m = run.run_batch([build.model_exe(self.prop.area)], scripts)
+    def run_pair(self, scripts, part=None):
+        q = part or self.prop
+        c = run.run_batch([self.drvs[q.driver]], scripts, per_process=getattr(q, "per_process", None))
+        m = run.run_batch([build.model_exe(q.area)], scripts)
         return c, m
 
-    def classify(self, script):
-        c, m = self.run_pair([script])
+    def classify(self, script, part=None):
+        c, m = self.run_pair([script], part)
         return run.compare_script(script, c[0], m[0])
 
     # ---------------------------------------------------------------- reporting
@@ -215,9 +227,10 @@ class Check:
                 f.write(ln + "\n")
         return path
 
-    def report(self, kind, script, res, name):
+    def report(self, kind, script, res, name, part=None):
         """one failing script -> known finding or violation"""
-        key = self.prop.finding_key(script, res) if hasattr(self.prop, "finding_key") else None
+        q = part or self.prop
+        key = q.finding_key(script, res) if hasattr(q, "finding_key") else None
         for f in self.findings:
             if f["property"] == self.prop.id and key is not None and f["key"] == key:
                 if f not in self.known_hits:
@@ -272,6 +285,38 @@ class Check:
             self.evaluations, self.nontrivial, self.stats, wall))
         return 1 if lines else 0
 
+    def run_streams(self, part, streams, seen_nt):
+        p = part
+        CH = 4000
+        for s in range(0, len(streams), CH):
+            chunk = streams[s:s + CH]
+            scripts = [x[1] for x in chunk]
+            c, m = self.run_pair(scripts, part)
+            for (name, script), cr, mr in zip(chunk, c, m):
+                res = run.compare_script(script, cr, mr)
+                self.evaluations += 1
+                self.stats[res["kind"]] += 1
+                if p.nontrivial(script, cr[0]):
+                    key = hashlib.sha1("\n".join(script).encode()).digest()
+                    if key not in seen_nt:
+                        seen_nt.add(key)
+                        self.nontrivial += 1
+                        if len(self.samples) < 6 and (len(self.samples) < 3 or random.Random(len(seen_nt)).random() < 0.01):
+                            self.samples.append({"script": [x[:300] for x in script[:12]], "code_output": [x[:300] for x in cr[0][:min(len(script), 12)]]})
+                if hasattr(p, "tally"):
+                    p.tally(self, script, cr[0])
+                if res["kind"] in ("fault", "c_ne_s", "c_ne_m", "m_ne_s"):
+                    if len(self.violations) + len(self.known_hits) < 40:
+                        small = script
+                        if len(self.violations) < 3:
+                            small = shrink(p, script, res["kind"], lambda sc: self.classify(sc, part), fixed=getattr(p, "fixed_lines", 1))
+                            res2 = self.classify(small, part)
+                            if res2["kind"] == res["kind"]:
+                                res = res2
+                            else:
+                                small = script
+                        self.report(res["kind"], small, res, "%s-%d-%s" % (res["kind"], self.seed, re.sub(r"\W+", "_", name)[:40]), part)
+
     # ---------------------------------------------------------------- main flow
     def execute(self):
         p = self.prop
@@ -320,36 +365,9 @@ class Check:
             budget_scale = 4 if proof_broken else 1
             if proof_broken:
                 self.notes.append("escalated: proof obligation broken, generator budgets x%d" % budget_scale)
-            streams = list(p.corpus(self)) + list(p.scripts(self.tier, self.seed, budget_scale))
-            CH = 4000
-            for s in range(0, len(streams), CH):
-                chunk = streams[s:s + CH]
-                scripts = [x[1] for x in chunk]
-                c, m = self.run_pair(scripts)
-                for (name, script), cr, mr in zip(chunk, c, m):
-                    res = run.compare_script(script, cr, mr)
-                    self.evaluations += 1
-                    self.stats[res["kind"]] += 1
-                    if p.nontrivial(script, cr[0]):
-                        key = hashlib.sha1("\n".join(script).encode()).digest()
-                        if key not in seen_nt:
-                            seen_nt.add(key)
-                            self.nontrivial += 1
-                            if len(self.samples) < 6 and (len(self.samples) < 3 or random.Random(len(seen_nt)).random() < 0.01):
-                                self.samples.append({"script": script, "code_output": cr[0][:len(script)]})
-                    if hasattr(p, "tally"):
-                        p.tally(self, script, cr[0])
-                    if res["kind"] in ("fault", "c_ne_s", "c_ne_m", "m_ne_s"):
-                        if len(self.violations) + len(self.known_hits) < 40:
-                            small = script
-                            if len(self.violations) < 3:
-                                small = shrink(p, script, res["kind"], self.classify, fixed=getattr(p, "fixed_lines", 1))
-                                res2 = self.classify(small)
-                                if res2["kind"] == res["kind"]:
-                                    res = res2
-                                else:
-                                    small = script
-                            self.report(res["kind"], small, res, "%s-%d-%s" % (res["kind"], self.seed, re.sub(r"\W+", "_", name)[:40]))
+            for part in self.parts():
+                streams = list(part.corpus(self)) + list(part.scripts(self.tier, self.seed, budget_scale))
+                self.run_streams(part, streams, seen_nt)
         else:
             self.notes.append("model driver does not build; correspondence not run")
         if proof_broken and not [v for v in self.violations if v[2] in ("fault", "c_ne_s", "m_ne_s")]:
